@@ -18,7 +18,10 @@ SimpleRef   == [cabs |-> FALSE, col |-> 1, rabs |-> FALSE, row |-> 1]       \* B
 SheetAtoms  == { Atom("sheet", <<"D","a","t","a","!">>, <<SimpleRef>>, <<>>, {}),
                  Atom("sheet", <<"A","B","1","!">>, <<SimpleRef>>, <<>>, {"SheetCellLike"}),
                  Atom("sheet", <<"'","M","y"," ","S","h","e","e","t","'","!">>, <<SimpleRef>>, <<>>, {}),
-                 Atom("sheet", <<"'","M","y"," ","Q","4","'","!">>, <<SimpleRef>>, <<>>, {"SheetCellLike"}) }
+                 Atom("sheet", <<"'","M","y"," ","Q","4","'","!">>, <<SimpleRef>>, <<>>, {"SheetCellLike"}),
+                 \* c' t' stand for the Cyrillic letters U+0441 U+0442 (low bytes 'A' 'B'): letters, but not
+                 \* column letters -- the sheet name is not cell-like
+                 Atom("sheet", <<"c'","t'","1","!">>, <<SimpleRef>>, <<>>, {}) }
 FuncAtoms   == { Atom("func", <<"S","U","M","(">>, <<SimpleRef>>, <<")">>, {}),
                  Atom("func", <<"L","O","G","1","0","(">>, <<SimpleRef>>, <<")">>, {"FuncDigits"}),
                  Atom("func", <<"A","T","A","N","2","(">>, <<SimpleRef>>, <<",","1",")">>, {}),
@@ -31,7 +34,8 @@ NumAtoms    == { Atom("num", <<"1","0">>, <<>>, <<>>, {}), Atom("num", <<"1","."
                  Atom("num", <<"1","E","5">>, <<>>, <<>>, {"SciNumber"}) }
 NameAtoms   == { Atom("name", <<"R","a","t","e">>, <<>>, <<>>, {}),
                  Atom("name", <<"T","A","X","2","0","2","0">>, <<>>, <<>>, {"NameCellLike"}),
-                 Atom("name", <<"T","R","U","E">>, <<>>, <<>>, {}) }
+                 Atom("name", <<"T","R","U","E">>, <<>>, <<>>, {}),
+                 Atom("name", <<"Z","L'","1">>, <<>>, <<>>, {}) }                 \* L' stands for U+0141 (low byte 'A')
 
 Menu == (IF "ref" \in AtomKinds THEN RefAtoms ELSE {}) \cup (IF "area" \in AtomKinds THEN AreaAtoms ELSE {})
         \cup (IF "sheet" \in AtomKinds THEN SheetAtoms ELSE {}) \cup (IF "func" \in AtomKinds THEN FuncAtoms ELSE {})
